@@ -63,10 +63,14 @@ def _get_last_result(
 
 def _update_optimal_result(
     optimal_result: FunctionResults | None,
+    optimal_objective: float | None,
     results: tuple[Results, ...],
     transformed_results: tuple[Results, ...],
     constraint_tolerance: float | None,
-) -> FunctionResults | None:
+) -> tuple[FunctionResults | None, float | None]:
+    # Results are compared in the domain of the optimizer (the transformed
+    # results), since that is where the objective is minimized. The value of the
+    # current optimum in that domain is passed in `optimal_objective`, if known.
     return_result: FunctionResults | None = None
     for item, transformed_item in zip(results, transformed_results, strict=False):
         if (
@@ -76,8 +80,13 @@ def _update_optimal_result(
             and not _violates_constraint(transformed_item, constraint_tolerance)
         ):
             assert isinstance(item, FunctionResults)
-            new_optimal_result = _get_new_optimal_result(optimal_result, item)
-            if new_optimal_result is not None:
-                optimal_result = new_optimal_result
-                return_result = new_optimal_result
-    return return_result
+            objective = transformed_item.functions.weighted_objective
+            if optimal_result is not None and optimal_objective is None:
+                is_better = _get_new_optimal_result(optimal_result, item) is not None
+            else:
+                is_better = optimal_result is None or objective < optimal_objective
+            if is_better:
+                optimal_result = item
+                optimal_objective = objective
+                return_result = item
+    return return_result, optimal_objective
